@@ -233,3 +233,28 @@ func vh_C13_SlowReplies() {
 	vfAssert("each-request-served-once", served == 2)
 	vfReach("end")
 }
+
+// an ask object prepared AHEAD of time (constructed, then used after a pause longer than its timeout): the timeout runs
+// from the call, so an actor that answers at once is answered in time - for the first use and for a later one
+func vh_C13_PreparedAsk() {
+	served := 0
+	actor := c13Actor(0, false, &served)
+	timeout := 300 * time.Millisecond
+	var ask *AskDef[int, int]
+	msg := vfInt("msg")
+	vfAssume(msg >= 0)
+	switch vfChoose("ask-constructor", 3) {
+	case 0:
+		ask = AskNewGenerics[int, int](msg)
+	case 1:
+		ask = AskNewByOptionsGenerics[int, int](msg, make(chan int))
+	default:
+		ask = AskNewByOptionsGenerics[int, int](msg, make(chan int, 1))
+	}
+	time.Sleep(time.Duration(vfRange("pause-in-timeouts", 0, 3)) * timeout)
+	got, err := ask.AskOnceWithTimeout(actor, timeout)
+	vfAssert("in-time-no-error", err == nil)
+	vfAssert("own-reply", got == vfFn("R", msg))
+	vfAssert("each-request-served-once", served == 1)
+	vfReach("end")
+}
